@@ -134,11 +134,14 @@ def mini_parse_field(text):
 # --------------------------------------------------------------------------- model
 
 class Seg(object):
-    __slots__ = ("comment", "body")
+    __slots__ = ("comment", "body", "pending")
 
-    def __init__(self, comment, body):
+    def __init__(self, comment, body, pending=False):
         self.comment = comment      # zero or more '#...\n' lines directly above the field
         self.body = body            # 'Name:...' up to the end of its last line
+        # pending: assigned while nobody was looking at the document - name and value are
+        # known, the exact text is adopted (and validated) at the next observation
+        self.pending = pending
 
     @property
     def name(self):
